@@ -349,6 +349,14 @@ func c09Session(t *rapid.T) {
 			m.ed.Apply("put", typed)
 			classes["edit"] = true
 			history = append(history, fmt.Sprintf("type %q", typed))
+			// posted actions and key presses travel on different channels: make sure the
+			// posted ones were executed before the keys are sent
+			if !s.Drain() {
+				if pt := s.panicText(); pt != "" {
+					t.Fatalf("fzf crashed\nhistory:\n  %s\n%s", strings.Join(history, "\n  "), pt)
+				}
+				infra(t, "posted actions were not executed within 20 s (alive=%v)", s.Alive())
+			}
 			s.SendLiteral(typed)
 			if m.refresh() {
 				resultChanges++
